@@ -26,7 +26,7 @@ var validRunes = []rune{'a', 'Z', '0', ' ', '\n', '\t', 0, 0xe9, 0x6f22, 0x1f469
 // AnyItem draws an item of any kind; depth bounds cell nesting.
 func AnyItem(tokens []string, depth int) *rapid.Generator[Item] {
 	return rapid.Custom(func(t *rapid.T) Item {
-		kinds := []string{"nil", "str", "str", "str", "rune", "int", "i32n", "u8", "f64", "bool", "ints", "bytes", "map", "emap", "sx", "sn", "sns", "psx", "if", "if", "if", "ifp", "tm", "jm"}
+		kinds := []string{"nil", "str", "str", "str", "rune", "int", "i32n", "u8", "f64", "bool", "ints", "bytes", "map", "emap", "sx", "sn", "sns", "psx", "if", "if", "if", "ifp", "tm", "jm", "fmtr"}
 		if depth > 0 {
 			kinds = append(kinds, "cell", "cell", "pcell")
 		}
@@ -38,7 +38,7 @@ func AnyItem(tokens []string, depth int) *rapid.Generator[Item] {
 			it.S = str("s")
 		case "rune":
 			it.N = int64(rapid.SampledFrom(validRunes).Draw(t, "r"))
-		case "int", "i32n", "ints":
+		case "int", "i32n", "ints", "fmtr":
 			it.N = int64(rapid.IntRange(-1000, 1000).Draw(t, "n"))
 		case "u8":
 			it.N = int64(rapid.IntRange(0, 255).Draw(t, "n"))
@@ -83,21 +83,23 @@ func IfaceItem(tokens []string, mask int) *rapid.Generator[Item] {
 
 // ScriptOpts tunes the build-history generator.
 type ScriptOpts struct {
-	Item       *rapid.Generator[Item]
-	MinOps     int
-	MaxOps     int
-	MaxCells   int  // usual maximum number of cells per row/header
-	HeavyTail  int  // if >0, occasionally up to this many cells
-	MultiHdr   bool // allow more than one AddHeaders
-	ForceHdr   bool // always set a header (at a random position)
-	NoHdr      bool // never set a header
-	NoLateAdd  bool // no Row.Add on attached rows
-	NoSepAdd   bool // no Row.Add on separator rows
-	Creators   []string
-	HdrItem    *rapid.Generator[Item] // generator for header items (default Item)
-	NoZeroHdr  bool                   // header has at least one cell
-	SimpleOnly bool                   // only hdr/rowitems/sep
-	HdrCells   [2]int                 // if HdrCells[1] > 0: header cell count drawn from [HdrCells[0], HdrCells[1]]
+	Item        *rapid.Generator[Item]
+	MinOps      int
+	MaxOps      int
+	MaxCells    int  // usual maximum number of cells per row/header
+	HeavyTail   int  // if >0, occasionally up to this many cells
+	MultiHdr    bool // allow more than one AddHeaders
+	ForceHdr    bool // always set a header (at a random position)
+	NoHdr       bool // never set a header
+	NoLateAdd   bool // no Row.Add on attached rows
+	NoSepAdd    bool // no Row.Add on separator rows
+	Creators    []string
+	HdrItem     *rapid.Generator[Item] // generator for header items (default Item)
+	NoZeroHdr   bool                   // header has at least one cell
+	SimpleOnly  bool                   // only hdr/rowitems/sep
+	HdrCells    [2]int                 // if HdrCells[1] > 0: header cell count drawn from [HdrCells[0], HdrCells[1]]
+	AllowMutate bool                   // also generate "mutate": change a mutable item and call Cell.Update()
+	AllowReAdd  bool                   // also generate "readd": AddRow of a row that is already attached
 }
 
 func (o ScriptOpts) cellCount(t *rapid.T, label string) int {
@@ -125,6 +127,12 @@ func ScriptGen(o ScriptOpts) *rapid.Generator[Script] {
 		}
 		if !o.NoHdr && !o.ForceHdr {
 			kinds = append(kinds, "hdr")
+		}
+		if o.AllowReAdd {
+			kinds = append(kinds, "readd")
+		}
+		if o.AllowMutate {
+			kinds = append(kinds, "mutate", "mutate")
 		}
 		hdrItem := o.HdrItem
 		if hdrItem == nil {
@@ -192,6 +200,14 @@ func ScriptGen(o ScriptOpts) *rapid.Generator[Script] {
 						op.Items = append(op.Items, o.Item.Draw(t, "item"))
 					}
 				}
+			case "mutate":
+				op.Ref = rapid.IntRange(0, 5).Draw(t, "ref")
+				op.Cap = rapid.IntRange(0, 4).Draw(t, "cell")
+				to := o.Item.Draw(t, "to")
+				op.Items = []Item{{K: "str", S: to.S, G: to.G, E: to.E, N: to.N}}
+			case "readd":
+				op.Ref = rapid.IntRange(0, 5).Draw(t, "ref")
+				rows = append(rows, rk{attached: true, sep: true}) // no further Add through this alias
 			case "addrow":
 				var pend []int
 				for j, r := range rows {
